@@ -4,7 +4,7 @@ CFG = dict(
     theorems=["stl_full", "stl_prefix_rejected", "splat_prefix", "splat_prefix_read", "spz_prefix", "spz_complete",
               "ply_header_cut", "ply_binary_full", "ply_binary_prefix_rejected", "ply_ascii_full", "ply_ascii_prefix",
               "pts_full", "pts_prefix",
-              "no_placeholder_stl", "no_placeholder_splat", "no_placeholder_spz", "no_placeholder_ply_binary",
+              "no_placeholder_stl", "no_placeholder_splat", "no_placeholder_spz", "no_placeholder_ply_binary", "no_placeholder_ply_ascii", "ascii_eof_loop_no_progress",
               "reader_steps_linear_splat", "reader_steps_linear_arrays", "reader_steps_linear_ascii_verts",
               "reader_steps_linear_ascii_faces", "reader_steps_linear_pts", "scanLines_length",
               "PolyVerif.Readers.ptsPoint_restriction"],
@@ -19,4 +19,8 @@ CFG = dict(
              "PTS: a cut inside the first point line of a ONE-point file with at least 3 fields left is a valid one-point file of fewer fields (the format has no field count): the reader returns that point with the fields present (theorem pts_prefix states this case; nothing is fabricated)",
              "negative int32 list counts in binary PLY (panic in the reader) cannot occur in a prefix of a valid file and are modelled as short reads"],
     assumptions=["valid files are the reference encodings of Props/C14 (writer-shaped: vertex element then face element, one token per property, single-space separated)"],
+    manifest=dict(
+        text="Lean 4 theorems about total-function models of the readers (stl.Read, ply MeshReader.Read: header line scan, binary LE/BE body incl. list properties, ASCII vertex/face scanner loops; pts.ReadPointCloud; spz.Read after gzip; splat.Read): for EVERY valid file of the format (reference encodings: any header layout / record sizes / counts / triangles and quads / texcoord lists) and EVERY cut position, the reader applied to the prefix returns an error - binary STL, binary PLY (header cut or body short), SPZ stream: every byte position; ASCII PLY and PTS: every token boundary at the line/token level the scanner delivers - or exactly the data wholly present: .splat returns the first floor(k/32) records with the ErrUnexpectedEOF flag iff 32 does not divide k; a PTS file cut inside its only point line returns that point restricted to the tokens present. no_placeholder_*: any ok on a cut file is the full decode (.splat: a list prefix). reader_steps_linear_*: iteration counts bounded by bytes/lines. Tie: every cut point 0..len of generated files (ply.Write in three encodings, hand-written PLY variants, stl.WriteMesh, PTS text, reference-encoded SPZ cut in the COMPRESSED stream, splat.Write) is fed to the real reader under a 3 s deadline; verdict class (err/panic/timeout/ok+counts) compared with the model on the same bytes, and whenever the implementation returns ok its result must be a prefix-restriction of its own full decode (tagged non-zero coordinates).",
+        note="Trusted: Lean kernel + 3 standard axioms; harness; compress/gzip delivers a prefix then an error; parsed PLY header taken from the real ReadHeader of the complete file; byte-level tokeniser and decimal number syntax tied at every byte cut, not proved. Not proved: wall-clock time (deadline observed); ASCII theorems are at token boundaries on the line/token structure. Found and fixed this round: PTS placeholder vertices for a cut inside the last point line (43af7f0), PLY ASCII panics on short lines (a9972a3).",
+        technique="Lean 4 proof (prefix-safety of record parsers by induction over records/lines, for every cut) + exhaustive cut-point correspondence against the real readers under a deadline + compiled prefix-restriction oracle"),
 )
